@@ -21,7 +21,7 @@ from harness import hub_c01
 from harness.core import Broken, Failure, Prop
 
 
-class HubStuck(Exception):
+class HubStuck(KeyboardInterrupt):      # asyncio swallows ordinary exceptions raised inside callbacks
     """The real hub keeps the event loop busy without letting (virtual) time pass."""
 
 STUCK_AFTER_S = 15      # real seconds; a normal case takes a few milliseconds
